@@ -33,6 +33,7 @@ func (c03) Batches(tier string, seed uint64) []core.Batch {
 	b = append(b, spread("invalid", 4, tierN(tier, 1500, 6000))...)
 	b = append(b, spread("exh", 8, 0)...)
 	b = append(b, spread("rtrand", 8, tierN(tier, 12000, 60000))...)
+	b = append(b, core.Batch{Name: "corpus"}) // versions of this machine's dpkg database
 	return b
 }
 
@@ -48,6 +49,23 @@ var wsWrap = []string{"", " ", "\t", "\n", " \t\n", "  ", "\r\n"}
 func (p c03) RunBatch(t *core.T, b core.Batch) {
 	r := t.Rand(b.Name, fmt.Sprint(b.Arg))
 	switch b.Name {
+	case "corpus":
+		vals := corpusFieldValues("Version")
+		if len(vals) == 0 {
+			t.Cover("corpus:unavailable")
+			return
+		}
+		for _, s := range vals {
+			s := s
+			t.Case("roundtrip", []byte(s), func(c *core.C) {
+				if _, err := version.Parse(s); err != nil {
+					c.Failf("Parse rejects the version of an installed package: %q: %v", s, err)
+					return
+				}
+				p.roundtrip(c, s, "corpus")
+			})
+		}
+		t.CoverN("corpus:dpkg-database-versions", int64(len(vals)))
 	case "grammar":
 		for i := 0; i < b.N; i++ {
 			v := gen.Version(r)
